@@ -15,7 +15,16 @@ fn pick_path(rng: &mut Rng, maxlen: usize) -> Term {
     tl((0..n).map(|_| ts(KEYS[rng.below(KEYS.len())])).collect())
 }
 
+/// an operation; half of the operations that build or change a dictionary are wrapped as
+/// ("quiet" op): the script continues with `; string length {}`, so the value just produced is never
+/// asked for its string and copies of it share whatever typed representation it has
 pub fn op(rng: &mut Rng) -> Term {
+    let o = op0(rng);
+    let building = matches!(o.nth(0).as_str(), "create" | "set" | "unset" | "remove" | "copy");
+    if building && rng.chance(1, 2) { tag("quiet", vec![o]) } else { o }
+}
+
+fn op0(rng: &mut Rng) -> Term {
     let v = VARS[rng.below(3)];
     let w = VARS[rng.below(3)];
     match rng.below(14) {
@@ -55,6 +64,7 @@ pub fn render(o: &Term) -> String {
     let v = |s: &str| Value::from(s);
     let path = |t: &Term| -> Vec<Value> { t.strs().iter().map(|s| Value::from(s.as_str())).collect() };
     match o.nth(0).as_str() {
+        "quiet" => format!("{}; string length {{}}", render(o.nth(1))),
         "create" => {
             let mut inner = vec![v("dict"), v("create")];
             inner.extend(path(o.nth(2)));
@@ -109,7 +119,7 @@ pub fn gen(tier: &str, seed: u64) -> Gen {
         let ops: Vec<Term> = (0..len).map(|_| op(&mut rng)).collect();
         cases.push(mk(ops));
     }
-    (cases, vec![("random operation sequences (create/set/unset/remove/copy/get/exists/keys/values/size removal of the variable itself, values built by `list` with repeated keys, nested paths to depth 3, malformed literals) of length 1-30 over 3 variables".to_string(), n, false)])
+    (cases, vec![("random operation sequences (create/set/unset/remove/copy/get/exists/keys/values/size removal of the variable itself, values built by `list` with repeated keys, nested paths to depth 3, malformed literals; half of the building steps leave the value they produce without a string) of length 1-30 over 3 variables".to_string(), n, false)])
 }
 
 pub fn run(case: &Term) -> Term {
